@@ -1004,6 +1004,24 @@ class SingleGrid(_PropertyGrid):
         else:
             raise Exception("Cell not empty")
 
+    def move_agent(self, agent: Agent, pos: Coordinate) -> None:
+        """Move an agent from its current position to a new position.
+
+        Raises an exception, leaving the agent where it is, if the target cell is
+        occupied by another agent.
+
+        Args:
+            agent: Agent object to move. Assumed to have its current location
+                   stored in a 'pos' tuple.
+            pos: Tuple of new position to move the agent to.
+        """
+        pos = self.torus_adj(pos)
+        x, y = pos
+        occupant = self._grid[x][y]
+        if occupant is not None and occupant is not agent:
+            raise Exception("Cell not empty")
+        super().move_agent(agent, pos)
+
     def remove_agent(self, agent: Agent) -> None:
         """Remove the agent from the grid and set its pos attribute to None."""
         if (pos := agent.pos) is None:
